@@ -166,7 +166,15 @@ func main() {
 	sort.Strings(regress)
 	replayed := 0
 	listed := map[string]bool{}
-	for _, k := range known {
+	type rjob struct {
+		path string
+		k    *knownEntry
+		vs   []violation
+		ks   []string
+	}
+	var rjobs []*rjob
+	for i := range known {
+		k := known[i]
 		if k.Replay == "" {
 			continue
 		}
@@ -174,36 +182,50 @@ func main() {
 		if !filepath.IsAbs(p) {
 			p = filepath.Join(verifDir, p)
 		}
+		if listed[p] {
+			continue
+		}
 		listed[p] = true
-		out, vs, ks := runReplay(id, cfg, bin, p)
+		rjobs = append(rjobs, &rjob{path: p, k: &k})
+	}
+	for _, p := range regress {
+		if !listed[p] {
+			listed[p] = true
+			rjobs = append(rjobs, &rjob{path: p})
+		}
+	}
+	{
+		// the replay tier runs in parallel (each replay is its own process)
+		var rwg sync.WaitGroup
+		rsem := make(chan struct{}, 8)
+		for _, j := range rjobs {
+			rwg.Add(1)
+			go func(j *rjob) {
+				defer rwg.Done()
+				rsem <- struct{}{}
+				defer func() { <-rsem }()
+				_, j.vs, j.ks = runReplay(id, cfg, bin, j.path)
+			}(j)
+		}
+		rwg.Wait()
+	}
+	for _, j := range rjobs {
 		replayed++
-		if k.Status == "open" {
+		if j.k != nil && j.k.Status == "open" {
 			found := false
-			for _, kk := range ks {
-				if kk == k.Key {
+			for _, kk := range j.ks {
+				if kk == j.k.Key {
 					found = true
 				}
 			}
 			if found {
-				knownLines = append(knownLines, fmt.Sprintf("KNOWN-FINDING: property=%s key=%s %s (replay %s still fails as listed)", id, k.Key, k.What, k.Replay))
-			} else if len(vs) == 0 {
-				fmt.Printf("NOTE: listed finding %s no longer reproduces from %s\n", k.Key, k.Replay)
+				knownLines = append(knownLines, fmt.Sprintf("KNOWN-FINDING: property=%s key=%s %s (replay %s still fails as listed)", id, j.k.Key, j.k.What, j.k.Replay))
+			} else if len(j.vs) == 0 {
+				fmt.Printf("NOTE: listed finding %s no longer reproduces from %s\n", j.k.Key, j.k.Replay)
 			}
 		}
-		for _, v := range vs {
-			v.Replay = p
-			addViolation(v)
-		}
-		_ = out
-	}
-	for _, p := range regress {
-		if listed[p] {
-			continue
-		}
-		_, vs, _ := runReplay(id, cfg, bin, p)
-		replayed++
-		for _, v := range vs {
-			v.Replay = p
+		for _, v := range j.vs {
+			v.Replay = j.path
 			addViolation(v)
 		}
 	}
